@@ -7,9 +7,9 @@ sys.path.insert(0, os.path.dirname(os.path.dirname(os.path.abspath(__file__))))
 MODULE = "own"
 ADAPTER = "own_impl.py"
 
-RO_PAIR = ["cc", "sim", "jac", "cont", "iu", "and", "or", "fds", "search", "searchc", "prefetch", "gather",
-           "compare", "manifest", "save", "ani", "ang"]
-RO_ONE = ["md5", "hashes", "pickle", "save", "manifest"]
+RO_PAIR = ["cc", "sim", "jac", "cont", "iu", "and", "or", "fds", "search", "searchc", "prefetch", "gather", "gatherm", "gatherm",
+           "compare", "comparem", "manifest", "save", "savem", "ani", "ang", "sigcopy", "sigcopym", "selview"]
+RO_ONE = ["md5", "hashes", "pickle", "save", "manifest", "sigcopy", "sigcopym", "selview"]
 MUTATORS = ["add", "addab", "addmany", "rm", "clear", "merge", "setab", "settrack"]
 
 
